@@ -110,6 +110,8 @@ def render_term(t, varname=None):
         if x["t"] == "v":
             return "[" + ",".join(items) + "|" + render_term(x, vn) + "]"
         raise ValueError("improper list not expressible in the grammar")
+    if not t["a"]:
+        return render_atom(t["n"]) + "()"          # a compound term without arguments: foo()
     if t["n"] in BINOPS and len(t["a"]) == 2:
         return "%s %s %s" % (_operand(t["a"][0], vn), t["n"], _operand(t["a"][1], vn))
     if t["n"] in UNOPS and len(t["a"]) == 1:
